@@ -22,6 +22,9 @@ fn main() {
         eprintln!("usage: cv <C01..C18> <quick|thorough> [--replay <file>]");
         std::process::exit(64);
     }
+    if args[1] == "c04-child" {
+        std::process::exit(props::c04::child(&args[2..]));
+    }
     if args[1] == "c10-child" {
         std::process::exit(props::c10::child(&args[2..]));
     }
